@@ -527,8 +527,10 @@ namespace AIToolbox::POMDP {
             // This means that their value is *higher* than what we can
             // approximate using the other beliefs.
             AI_LOGGER(AI_SEVERITY_DEBUG, "UB pruning...");
+            // With a single point (or none) there is nothing to prune against;
+            // popping it would leave ubV empty (and wrap the index next time).
             size_t i = ubV.first.size();
-            do {
+            if (i > 1) do {
                 --i;
 
                 // We swap the current belief to check at the end, and we
